@@ -44,9 +44,13 @@ def probe_ok(data: bytes) -> bool:
 
 
 class Host:
-    def __init__(self, ip: str, datagram, *, listen_port: int = 6445, copies: int = 1) -> None:
-        """datagram: bytes, or a list of byte strings used round-robin for the copies."""
+    def __init__(self, ip: str, datagram, *, listen_port: int = 6445, copies: int = 1, delay: float = 0.0,
+                 hostname: Optional[str] = None) -> None:
+        """datagram: bytes, or a list of byte strings used round-robin for the copies.
+        delay: how much later than the others this host answers; hostname: a DNS name that resolves to this host."""
         self.ip = ip
+        self.delay = delay
+        self.hostname = hostname
         self.datagrams = list(datagram) if isinstance(datagram, (list, tuple)) else [datagram]
         self.datagram = self.datagrams[0]
         self.listen_port = listen_port
@@ -72,7 +76,9 @@ class Population:
             return
         triggered = []
         for i, h in enumerate(self.hosts):
-            if tport == h.listen_port and tip in (BROADCAST, h.ip):
+            # limited broadcast, unicast, the host's DNS name, or the directed broadcast address of its /24
+            directed = tip.endswith(".255") and tip.rsplit(".", 1)[0] == h.ip.rsplit(".", 1)[0]
+            if tport == h.listen_port and (tip in (BROADCAST, h.ip) or directed or (h.hostname is not None and tip == h.hostname)):
                 h.probes += 1
                 if not h.answered:
                     h.answered = True
@@ -81,7 +87,7 @@ class Population:
             for i in triggered:
                 h = self.hosts[i]
                 for c in range(h.copies):
-                    transport.deliver(h.datagrams[c % len(h.datagrams)], (h.ip, 6445 + c), self.t0 + (i * 4 + c) * self.gap)
+                    transport.deliver(h.datagrams[c % len(h.datagrams)], (h.ip, 6445 + c), self.t0 + h.delay + (i * 4 + c) * self.gap)
             return
         # explicit global arrival order: deliver once every host that takes part has been triggered
         if not self.planned and all(h.answered for h in self.hosts):
